@@ -163,7 +163,12 @@ fn stages(tier: Tier) -> Vec<Stage> {
     let mut v = Vec::new();
     // n = 0, 1: every letter, both predicates, both values
     for functional in [false, true] {
-        let l = letters(&[false, true], &all_ev, &confs);
+        // incl. the boundary confidences stated 0.0 and 1.0
+        let l = letters(
+            &[false, true],
+            &all_ev,
+            &[0u8, 3, 6, 9, case::CONF_ZERO, 10],
+        );
         let mut groups = full_family(functional, &l, 0);
         groups.extend(full_family(functional, &l, 1));
         v.push(Stage {
@@ -202,7 +207,11 @@ fn stages(tier: Tier) -> Vec<Stage> {
         for functional in [false, true] {
             // plain: the 288 letters about v0 (letters about v1 of a plain predicate: n<=1 above);
             // functional: all 576 letters
-            let l = letters(if functional { &[false, true] } else { &[false] }, &all_ev, &confs);
+            let l = letters(
+                if functional { &[false, true] } else { &[false] },
+                &all_ev,
+                &confs,
+            );
             v.push(Stage {
                 name: format!(
                     "n=2 {}: all multisets over {} letters",
@@ -392,9 +401,17 @@ fn main() {
     never_stored(&mut run);
 
     // development aid: `--stages <substring>` runs only the stages whose name contains it
-    let only: Option<String> = run.args.iter().position(|a| a == "--stages").and_then(|i| run.args.get(i + 1).cloned());
+    let only: Option<String> = run
+        .args
+        .iter()
+        .position(|a| a == "--stages")
+        .and_then(|i| run.args.get(i + 1).cloned());
     for stage in stages(run.tier) {
-        if only.as_ref().map(|o| !stage.name.contains(o.as_str())).unwrap_or(false) {
+        if only
+            .as_ref()
+            .map(|o| !stage.name.contains(o.as_str()))
+            .unwrap_or(false)
+        {
             run.cap_hit(&format!("stage filter: '{}' skipped", stage.name));
             capped = true;
             continue;
@@ -449,7 +466,10 @@ fn main() {
             run.add("entry_point_checks", o.entry_point_checks);
             run.add("reprojection_checks", o.restab_checks);
             run.add("order_comparisons", o.order_comparisons);
-            run.add("note_other_value_ineligible_not_listed", o.other_value_unlisted);
+            run.add(
+                "note_other_value_ineligible_not_listed",
+                o.other_value_unlisted,
+            );
             run.add("nexus_instances", o.worlds);
             run.add("kml_transactions", o.statements);
             run.add("kql_queries", o.queries);
@@ -464,13 +484,18 @@ fn main() {
                 // written-out cases: three different actors on one side that are NOT three groups
                 let specs = case.specs();
                 let actors = |side: SideOf| {
-                    let mut a: Vec<u8> = specs.iter().filter(|x| oracle::side_of(case.functional, x) == side).map(|x| x.actor).collect();
+                    let mut a: Vec<u8> = specs
+                        .iter()
+                        .filter(|x| oracle::side_of(case.functional, x) == side)
+                        .map(|x| x.actor)
+                        .collect();
                     a.sort();
                     a.dedup();
                     a.len() as u64
                 };
                 if case.events.len() >= 3
-                    && ((actors(SideOf::Support) == 3 && s.sg < 3) || (actors(SideOf::Opposition) == 3 && s.og < 3))
+                    && ((actors(SideOf::Support) == 3 && s.sg < 3)
+                        || (actors(SideOf::Opposition) == 3 && s.og < 3))
                     && (samples_offered % 97 == 0)
                 {
                     run.sample(json!({"history": case.short(), "support": s.s, "support_groups": s.sg, "opposition": s.o, "opposition_groups": s.og}));
@@ -505,7 +530,11 @@ fn main() {
     }
 
     // ---- laws between multisets that were run: (e) repetition, (f) monotone confidence
-    let order = |c: u8| if c == 0 { 5 } else { c };
+    let order = |c: u8| match c {
+        0 => 5,
+        case::CONF_ZERO => 0,
+        c => c,
+    };
     let mut pair_viol: Vec<Violation> = Vec::new();
     let mut keys: Vec<&(bool, Vec<Spec>)> = summaries.keys().collect();
     keys.sort();
@@ -573,7 +602,7 @@ fn main() {
     run.set("completed_multiset_size", json!(completed_n));
     run.set("stages", json!(stage_log));
     run.rule(
-        "multisets of n assertions (n = 0,1,2: every letter = value v0/v1 x 3 actors x evidence subsets x stance {support,reject,uncertain} x confidence {unstated,.3,.6,.9}; \
+        "multisets of n assertions (n = 0,1,2: every letter = value v0/v1 x 3 actors x evidence subsets x stance {support,reject,uncertain} x confidence {unstated,.3,.6,.9; n<=1 also stated 0.0 and 1.0}; \
          n = 3,4(,5): every structure multiset over 3 actors x 8 evidence subsets [quick: one per actor/evidence renaming class] x listed stance patterns x fixed injective confidence pattern) \
          on a plain and a functional predicate, EVERY distinct recording order (n=5: sorted+reversed), one transaction per assertion, each history about a fresh subject of a long-lived Nexus shared with thousands of other subjects, \
          evaluation time pinned by FOR TIME; every stored proposition (v0 and, when asserted, v1) is projected and compared with BeliefModel (status, groups, id sets, excluded, scores 1e-9, policy named), across orders (1e-12), \
